@@ -123,6 +123,23 @@ func (x *fnCtx) callValue(st *State, in ssa.Instruction, c *ssa.CallCommon, fnv 
 		bindings = fnv.Fn.Bindings
 	}
 	if callee == nil {
+		// a value of a named function type that has a declared contract (e.g. app.Factory)
+		if named, ok := c.Value.Type().(*types.Named); ok && named.Obj().Pkg() != nil {
+			if con := x.eng.db.FuncTypes[named.Obj().Pkg().Path()+"."+named.Obj().Name()]; con != nil {
+				con.Used = true
+				if con.ParamNames == nil {
+					for i := 0; i < sig.Params().Len(); i++ {
+						con.ParamNames = append(con.ParamNames, sig.Params().At(i).Name())
+					}
+				}
+				res := x.applyContract(st, fr, in, con, sig, nil, args, rt, con.Key())
+				if st.dead {
+					return
+				}
+				record(st, res)
+				return
+			}
+		}
 		// call through a function value of unknown identity
 		x.eng.logAbs("%s: call through unknown function value %s: heap havoced", x.short, c.Value.Name())
 		if x.eng.cfg.Layers["safety"] {
